@@ -303,11 +303,13 @@ fn part_a(rep: &Reporter) {
     let n = rep.tier.pick(2_000usize, 1_500_000usize);
     let mut rng = SplitMix64::new(rep.seed).fork(0xC07);
     for _ in 0..n {
-        let len = 1 + rng.usize(8);
+        // mostly short histories of small populations; one in sixteen is a long history (a best that has long stopped
+        // improving) and one population in sixteen is large (above the sizes at which min / sort routines switch algorithm)
+        let len = if rng.chance(0.06) { 9 + rng.usize(40) } else { 1 + rng.usize(8) };
         let mut tag = 0;
         let seq: Vec<Vec<T>> = (0..len)
             .map(|_| {
-                (0..rng.usize(9))
+                (0..if rng.chance(0.06) { 9 + rng.usize(90) } else { rng.usize(9) })
                     .map(|_| {
                         tag += 1;
                         let v = if rng.chance(0.7) { (rng.below(7) as f64) - 3.0 } else if rng.chance(0.2) { f64::INFINITY } else { rng.f64_in(-5.0, 5.0) };
